@@ -46,14 +46,23 @@ nni_taskq_thread(void *self)
 
 			nni_mtx_unlock(&tq->tq_mtx);
 
+			NNI_VERIF_PT(NNI_VP_TASK_BEFORE_CB);
 			task->task_cb(task->task_arg);
+			NNI_VERIF_PT(NNI_VP_TASK_AFTER_CB);
 
 			nni_mtx_lock(&task->task_mtx);
+#ifdef NNG_VERIF
+			if (task->task_busy == 0) {
+				nni_verif_fail("C02",
+				    "task-busy-underflow task=%p", (void *) task);
+			}
+#endif
 			task->task_busy--;
 			if (task->task_busy == 0) {
 				nni_cv_wake(&task->task_cv);
 			}
 			nni_mtx_unlock(&task->task_mtx);
+			NNI_VERIF_EV(NNI_VE_TASK_DONE, task, 0, 0);
 
 			nni_mtx_lock(&tq->tq_mtx);
 
@@ -154,10 +163,18 @@ nni_task_exec(nni_task *task)
 
 	if (task->task_cb != NULL) {
 		nni_mtx_unlock(&task->task_mtx);
+		NNI_VERIF_EV(NNI_VE_TASK_ENQ, task, 1, 0);
 		task->task_cb(task->task_arg);
+		NNI_VERIF_EV(NNI_VE_TASK_DONE, task, 1, 0);
 		nni_mtx_lock(&task->task_mtx);
 	}
 
+#ifdef NNG_VERIF
+	if (task->task_busy == 0) {
+		nni_verif_fail(
+		    "C02", "task-busy-underflow task=%p", (void *) task);
+	}
+#endif
 	task->task_busy--;
 	if (task->task_busy == 0) {
 		nni_cv_wake(&task->task_cv);
@@ -184,6 +201,8 @@ nni_task_dispatch(nni_task *task)
 	}
 	nni_mtx_unlock(&task->task_mtx);
 
+	NNI_VERIF_EV(NNI_VE_TASK_ENQ, task, 0, 0);
+	NNI_VERIF_PT(NNI_VP_TASK_BEFORE_ENQUEUE);
 	nni_mtx_lock(&tq->tq_mtx);
 	nni_list_append(&tq->tq_tasks, task);
 	nni_cv_wake1(&tq->tq_sched_cv); // waking just one waiter is adequate
